@@ -5,7 +5,7 @@ import re
 
 from cfg import cfg_of
 from expr import Exprs, fmt, walk, contains
-from mirutil import (is_call, try_sites, result_fate, returns_result, known_le0, linear, lin_sub, implies_le0,
+from mirutil import (is_call, error_blocks, try_sites, result_fate, returns_result, known_le0, linear, lin_sub, implies_le0,
                      for_loops, dominating_conds)
 from audit import Auditor, interval
 from framework import site_of, VERIF
@@ -198,6 +198,51 @@ def run(F, rep):
                     rep.ob("C14-ERR", "%s propagates a failed Archive::open" % _short(f.key), fate in ("propagated", "returned"),
                            detail="fate: %s" % fate, site=site_of(f, t), key="C14-ERR | %s | propagates open" % f.key)
         rep.floor("C14-ERR", n, floor, "Archive::open call in Decompressor::open")
+
+    # ------------------------------------------------------------ C14-ONCE: one directory per file
+    # The file is data followed by exactly one directory and its length.  If a second directory could be appended
+    # (close() run twice - it is also called by Drop), the state in between is a proper prefix that is itself a
+    # complete archive.  Typestate: only close() calls the footer writer, and on the way from that call to a
+    # successful return it gives up the writer, so a second close() finds nothing to write with.
+    ser = F.funcs.get("ragc_common::archive::Archive::serialize")
+    clo = F.funcs.get("ragc_common::archive::Archive::close")
+    if rep.floor("C14-ONCE", sum(1 for x in (ser, clo) if x), 2, "Archive::serialize and Archive::close"):
+        callers = sorted({f.key for f in F.funcs.values() for _, t in f.calls() if not t.get("indirect") and t["callee"] == ser.key})
+        rep.ob("C14-ONCE", "the footer writer is called from close() only", callers == [clo.key], detail=str(callers), key="C14-ONCE | who calls serialize")
+        g = cfg_of(clo)
+        exc = Exprs(clo)
+        sites = [bi for bi, t in clo.calls() if not t.get("indirect") and t["callee"] == ser.key]
+        clears = set()
+        for bi, b in enumerate(clo.blocks):
+            for s in b["stmts"]:
+                if s["k"] == "assign" and s["pl"]["p"] and isinstance(s["pl"]["p"][-1], dict) and s["pl"]["p"][-1].get("n") == "writer":
+                    v = exc.rvalue(s["rv"])
+                    if isinstance(v, tuple) and v[0] == "agg" and v[1].endswith("Option::None"):
+                        clears.add(bi)
+            tt = b["term"]
+            if tt["k"] == "call" and not tt.get("indirect") and re.search(r"Option::<T>::take$|mem::(take|replace)$", tt["callee"]) and "writer" in fmt(exc.operand(tt["args"][0])):
+                clears.add(bi)
+        errs = error_blocks(clo)
+        ok = bool(sites)
+        for sb in sites:
+            seen, st = set(), [clo.blocks[sb]["term"].get("t")]
+            while st:
+                b = st.pop()
+                if b is None or b in seen or b in errs or clo.blocks[b]["cleanup"]:
+                    continue
+                seen.add(b)
+                if b in clears:
+                    continue
+                if clo.blocks[b]["term"]["k"] == "return":
+                    ok = False
+                st.extend(g.succ[b])
+        rep.ob("C14-ONCE", "close() gives up the writer after writing the directory (a second close, e.g. from Drop, cannot append another one)", ok,
+               detail="writer cleared in blocks %s" % sorted(clears), site="%s:%d" % (clo.file, clo.line_lo), key="C14-ONCE | close releases the writer")
+        # and the footer writer refuses to run without a writer
+        exs2 = Exprs(ser)
+        needs = any(not t.get("indirect") and re.search(r"Option::<T>::(as_mut|as_ref|take|ok_or\w*)$|context$", t["callee"]) and "writer" in fmt(exs2.operand(t["args"][0]))
+                    for _, t in ser.calls())
+        rep.ob("C14-ONCE", "the footer writer needs an open writer (fails otherwise)", needs, site="%s:%d" % (ser.file, ser.line_lo), key="C14-ONCE | serialize needs writer")
     # open() itself must not return Ok on a path where the deserialiser failed: covered by the fate rule above.
     # notes: sites past the directory
     rep.note("sites past the directory (load_params, CollectionVarInt::decode, batch parsing) are audited under C18; "
